@@ -31,11 +31,13 @@ GROUPS = {
  'insert': ('dcmmeta.py: per-key dictionary edits of merges (_change_class, _insert_slice, _insert_non_slice, _insert_sample)',
    [('change_class_is_model', 'change_class_eq'), ('reclassify_is_model', 'reclassify_eq'), ('insert_slice_is_model', 'insert_slice_eq'),
     ('insert_non_slice_is_model', 'insert_non_slice_eq'), ('insert_sample_is_model', 'insert_sample_eq')]),
+ 'stackadd': ('dcmstack.py: DicomStack.add_dcm, _chk_congruent, _chk_close, _chk_equal',
+   [('chk_congruent_is_model', 'chk_congruent_eq'), ('add_dcm_is_model', 'add_dcm_eq')]),
  'data': ('dcmstack.py: DicomStack.get_data',
    [('file_idx_is_model', 'file_idx_eq'), ('file_idx_volume_is_model', 'file_idx_volume_eq'),
     ('get_data_trim_is_model', 'get_data_trim_eq')]),
 }
-OPENS = {'stack': 'Src Stk', 'data': 'Src Stk Wrap', 'wrapsplit': 'Src Wrap', 'wrapmerge': 'Src Wrap'}
+OPENS = {'stackadd': 'Src Stk', 'stack': 'Src Stk', 'data': 'Src Stk Wrap', 'wrapsplit': 'Src Wrap', 'wrapmerge': 'Src Wrap'}
 for grp, (srcfile, pairs) in GROUPS.items():
     mod = 'Code_' + grp
     sys.argv = ['x', 'C00', '/verif/lean/DcmVerif/Proofs/%s.lean' % mod, 'Src.', 'DcmVerif.Proofs.%s' % mod]
